@@ -148,3 +148,100 @@ def memo_key_violations(func: ast.FunctionDef, module_names: set) -> List[Tuple[
         if ignored:
             out.append((g, ttxt, ignored))
     return out
+
+
+# ---------------------------------------------------------------------------
+def sound_method_memo(cls, m: ast.FunctionDef):
+    """If method `m` of class `cls` is a memoised computation
+
+        v = self.C.get(k)          # k a parameter of m
+        if v is None:
+            v = E                  # E reads fields of self (and k)
+            self.C[k] = v
+        return v
+
+    whose cache is invalidated wherever something E depends on changes, return E (so that a rule can read the method as
+    `return E`); otherwise None.  "Depends on": the fields of self that E reads, and the fields a container field was built
+    from (`self.m = ChainMap(self.a, self.b)` makes m depend on a and b).  "Invalidated": every method other than __init__
+    that re-binds or writes into one of these fields also clears the cache, pops the key, or re-binds the cache - on the
+    clean reading that a method does what its statements say (no path analysis: a clear anywhere in the method counts,
+    and so does a pop of the name being registered)."""
+    if not m.args.args:
+        return None
+    s = m.args.args[0].arg
+    params = [a.arg for a in m.args.args[1:]]
+    body = [x for x in m.body if not (isinstance(x, ast.Expr) and isinstance(x.value, ast.Constant))]
+    if len(body) != 3:
+        return None
+    a0, cond, ret = body
+    if not (isinstance(a0, ast.Assign) and len(a0.targets) == 1 and isinstance(a0.targets[0], ast.Name) and isinstance(a0.value, ast.Call) and isinstance(a0.value.func, ast.Attribute)
+            and a0.value.func.attr == "get" and isinstance(a0.value.func.value, ast.Attribute) and isinstance(a0.value.func.value.value, ast.Name) and a0.value.func.value.value.id == s
+            and len(a0.value.args) == 1 and isinstance(a0.value.args[0], ast.Name) and a0.value.args[0].id in params):
+        return None
+    v, cache, key = a0.targets[0].id, a0.value.func.value.attr, a0.value.args[0].id
+    if not (isinstance(ret, ast.Return) and isinstance(ret.value, ast.Name) and ret.value.id == v):
+        return None
+    if not (isinstance(cond, ast.If) and not cond.orelse and unparse(cond.test) == f"{v} is None"):
+        return None
+    inner = [x for x in cond.body if not (isinstance(x, ast.Expr) and isinstance(x.value, ast.Constant))]
+    if len(inner) != 2:
+        return None
+    comp, store = inner
+    if not (isinstance(comp, ast.Assign) and len(comp.targets) == 1 and isinstance(comp.targets[0], ast.Name) and comp.targets[0].id == v):
+        return None
+    if not (isinstance(store, ast.Assign) and unparse(store.targets[0]) == f"{s}.{cache}[{key}]" and isinstance(store.value, ast.Name) and store.value.id == v):
+        return None
+    expr = comp.value
+    # E must be a function of the key and of fields of self only
+    for x in ast.walk(expr):
+        if isinstance(x, ast.Name) and x.id not in (s, key) and isinstance(x.ctx, ast.Load):
+            return None
+    deps = {x.attr for x in ast.walk(expr) if isinstance(x, ast.Attribute) and isinstance(x.value, ast.Name) and x.value.id == s}
+    # closure: a field bound to a container made of other fields
+    grew = True
+    while grew:
+        grew = False
+        for mm in cls.methods.values():
+            if not mm.args.args:
+                continue
+            s2 = mm.args.args[0].arg
+            for n in ast.walk(mm):
+                if isinstance(n, ast.Assign) and isinstance(n.targets[0], ast.Attribute) and isinstance(n.targets[0].value, ast.Name) and n.targets[0].value.id == s2 and n.targets[0].attr in deps:
+                    for y in ast.walk(n.value):
+                        if isinstance(y, ast.Attribute) and isinstance(y.value, ast.Name) and y.value.id == s2 and y.attr not in deps and y.attr != cache:
+                            deps.add(y.attr)
+                            grew = True
+    # the cache itself is created in __init__
+    init = cls.methods.get("__init__")
+    if init is None or not any(isinstance(n, ast.Assign) and isinstance(n.targets[0], ast.Attribute) and n.targets[0].attr == cache and isinstance(n.value, (ast.Dict, ast.Call)) for n in ast.walk(init)):
+        return None
+    for name, mm in cls.methods.items():
+        if name == "__init__" or mm is m or not mm.args.args:
+            continue
+        s2 = mm.args.args[0].arg
+        touches = False
+        for n in ast.walk(mm):
+            tg = n.targets if isinstance(n, (ast.Assign, ast.Delete)) else [n.target] if isinstance(n, ast.AugAssign) else []
+            for t in tg:
+                b = t
+                while isinstance(b, ast.Subscript):
+                    b = b.value
+                if isinstance(b, ast.Attribute) and isinstance(b.value, ast.Name) and b.value.id == s2 and b.attr in deps:
+                    touches = True
+            if isinstance(n, ast.Call) and isinstance(n.func, ast.Attribute) and isinstance(n.func.value, ast.Attribute) and isinstance(n.func.value.value, ast.Name) \
+                    and n.func.value.value.id == s2 and n.func.value.attr in deps and n.func.attr in ("update", "setdefault", "pop", "clear", "popitem", "append", "add", "remove", "discard"):
+                touches = True
+        if not touches:
+            continue
+        inval = False
+        for n in ast.walk(mm):
+            if isinstance(n, ast.Call) and isinstance(n.func, ast.Attribute) and isinstance(n.func.value, ast.Attribute) and isinstance(n.func.value.value, ast.Name) \
+                    and n.func.value.value.id == s2 and n.func.value.attr == cache and n.func.attr in ("clear", "pop"):
+                inval = True
+            if isinstance(n, ast.Assign) and isinstance(n.targets[0], ast.Attribute) and isinstance(n.targets[0].value, ast.Name) and n.targets[0].value.id == s2 and n.targets[0].attr == cache:
+                inval = True
+            if isinstance(n, ast.Delete) and any(isinstance(t, ast.Subscript) and isinstance(t.value, ast.Attribute) and t.value.attr == cache for t in n.targets):
+                inval = True
+        if not inval:
+            return None
+    return expr
